@@ -151,6 +151,15 @@ def applyOp (s : WState) (name : String) (fs : List (String × String)) (lineNo 
         | .ok (rk, rv, w, c) => s.commit w c ["OBS ok:" ++ Dump.mkey rk ++ "," ++ s.renderOld w rv]
         | .error e => fail e
       | none => s.note s!"line {lineNo}: bad key"
+    | "apop" =>
+      match s.w.arrPop p c with
+      | .ok (es, w, c) => s.commit w c ["OBS ok:" ++ "|".intercalate (es.map (s.renderOld s.w))]
+      | .error e => fail e
+    | "mpop" =>
+      match s.w.mapPop p c with
+      | .ok (kvs, w, c) =>
+        s.commit w c ["OBS ok:" ++ "|".intercalate (kvs.map (fun kv => Dump.mkey kv.1 ++ "," ++ s.renderOld s.w kv.2))]
+      | .error e => fail e
     | _ => s.note s!"line {lineNo}: unknown op {name}"
 
 def stepLine (s : WState) (line : String) (lineNo : Nat) : WState :=
